@@ -77,7 +77,7 @@ def proj_app(r):
 def outcome(rs):
     if rs is None:
         return 'dead'
-    if rs == '-':
+    if rs == '-' or rs.startswith('- '):
         return 'silent'
     if rs.startswith('PANIC'):
         return 'panic'
@@ -318,6 +318,87 @@ def gen_c05(rng, tier):
     return cases
 
 
+_ck = [1000]
+
+
+def app_op(rng, w, payload, tcp=None, v6=None, sport=None, dport=None):
+    """one `proto::repl` call on a fresh flow"""
+    tcp = rng.chance(1, 2) if tcp is None else tcp
+    v6 = rng.chance(1, 2) if v6 is None else v6
+    s, d = w.addrs(v6)
+    _ck[0] += 1
+    return ('A', 'tcp' if tcp else 'udp', s, d, rng.u16() if sport is None else sport, rng.u16() if dport is None else dport,
+            _ck[0] if tcp else None, payload)
+
+
+def acase(w, ops, tags=()):
+    return {'ops': [('C', w.cfg()), ('X',)] + ops, 'tags': list(tags)}
+
+
+def gen_appcases(kinds, tcp=None, v6=None, per=400, mutate_ratio=6):
+    def g(rng, tier):
+        cases = []
+        n = 6 if tier == 'quick' else 120
+        for _ in range(n):
+            w = World(rng, selfmode=False, denymode=False)
+            ops = []
+            tags = {}
+            for _ in range(per):
+                t = rng.chance(1, 2) if tcp is None else tcp
+                kind, fault, pl = gen.gen_app(rng, tcp=t, kinds=kinds)
+                if rng.chance(1, mutate_ratio):
+                    pl = gen.mutate(rng, pl)
+                    fault = 'mutated'
+                tags['%s:%s' % (kind, fault)] = tags.get('%s:%s' % (kind, fault), 0) + 1
+                ops.append(app_op(rng, w, pl, tcp=t, v6=v6))
+            c = acase(w, ops, ['app'])
+            c['dist'] = tags
+            cases.append(c)
+        return cases
+    return g
+
+
+def gen_c10(rng, tier):
+    """matcher-level (S ops) and application-level (A ops) identification cases"""
+    cases = gen_appcases(None, per=300)(rng, tier)
+    w = World(rng, selfmode=False, denymode=False)
+    sig_seeds = [b'GET /', b'PUT /', b'POST /', b'HEAD /', b'DELETE /', b'CONNECT /', b'OPTIONS /', b'TRACE /', b'PATCH /',
+                 b'SSH-2.0', b'SSH-1.99', b'Gh0st', b'\x00\x01\x01\x04\x21\x12\xa4\x42', b'\x00\x01\x00\x00' + bytes(16),
+                 b'\x00\x01\x00\x08' + bytes(16) + b'\x00\x03\x00\x04\x00\x00\x00\x02',
+                 b'\x80\x00\x00\x28\x11\x22\x33\x44' + bytes(7) + b'\x02\x00\x01\x86\xa0' + bytes(4) + b'\x00\x00\x00\x03',
+                 b'\x11\x22\x33\x44' + bytes(7) + b'\x02\x00\x01\x86\xa0' + bytes(4) + b'\x00\x00\x00\x03',
+                 b'\x00\x00\x00\x2f\xffSMB', b'\x00\x00\x01\x00\xfeSMB']
+    ops = []
+    n = 3000 if tier == 'quick' else 60000
+    for _ in range(n):
+        s = rng.choice(sig_seeds)
+        k = rng.below(8)
+        if k == 0:
+            s = s[:rng.below(len(s) + 1)]
+        elif k == 1:
+            s = s + rng.bytes(rng.below(12))
+        elif k == 2:
+            b = bytearray(s + rng.bytes(rng.below(4)))
+            if b:
+                b[rng.below(len(b))] = rng.choice([0, 0x43, 0x44, 0x47, 0x48, 0x4f, 0x50, 0x53, 0x54, 0x2a, 0xff, rng.below(256)])
+            s = bytes(b)
+        elif k == 3:
+            s = gen.mutate(rng, s)
+        elif k == 4:
+            s = rng.bytes(rng.below(32))
+        elif k == 5:
+            # wildcard positions filled with bytes that are literals elsewhere
+            b = bytearray(s)
+            for i in range(len(b)):
+                if rng.chance(1, 6):
+                    b[i] = rng.choice(list(b'GPHDCOTSh0\x00\x01\xff\xfe'))
+            s = bytes(b) + rng.bytes(rng.below(6))
+        ops.append(('S', 'proto', 0, rng.below(2), s))
+    c = acase(w, ops, ['matcher'])
+    cases.append(c)
+    return cases
+
+
 # ----------------------------------------------------------------------------- property table
 
 PROPS = {
@@ -326,6 +407,30 @@ PROPS = {
                      'over all 2x2x3x6 configurations with real loggers attached and log arguments evaluated; non-trivial = distinct (frame, logger, level) '
                      'with an authorised destination MAC, i.e. processed beyond the Ethernet filter; judge: no PANIC',
                 trusted=['panics are observed through catch_unwind in the hook driver; aborts that are not panics (allocation failure, stack overflow) are outside the model']),
+    'C10': dict(gen=gen_c10, judge='C10', proj=lambda r: r,
+                rule='matcher level: signature seeds truncated / extended / wildcard positions filled with bytes that are literals of other '
+                     'signatures / mutated, one real search_next(+end) call each; application level: payload grammars of every protocol over UDP and '
+                     'TCP, IPv4 and IPv6, random ports; non-trivial = payload whose reference identification is some signature (or, for replies, a '
+                     'signature-dispatched responder answered)'),
+    'C13': dict(gen=gen_appcases(['http', 'http', 'http', 'raw']), judge='C13', proj=lambda r: r,
+                rule='HTTP request grammar (9 verbs, targets incl. non-UTF-8/CR/NUL, versions, 0..n headers, CRLF/LF) + single faults (unknown verb, '
+                     'missing SP, bad version, header without colon, unterminated, lower case, two spaces) + raw mutations, over UDP and TCP, any port; '
+                     'non-trivial = request of the strict grammar, or one outside the relaxed language that starts like HTTP'),
+    'C14': dict(gen=gen_appcases(['dns', 'dns', 'dns', 'raw'], tcp=False), judge='C14', proj=lambda r: r,
+                rule='DNS messages (ids, flag words, 0..k questions, label layouts, type/class grids, QR=1, extra sections, truncation) over UDP; '
+                     'non-trivial = IN/A query over IPv4 (answer checked by the independent parser) or non-IN/A / truncated message (silence checked)'),
+    'C15': dict(gen=gen_appcases(['stun', 'stun', 'stun', 'raw'], tcp=False), judge='C15', proj=lambda r: r,
+                rule='STUN messages with/without magic cookie, attribute lists well-formed (padded) and with lying TLV lengths, change-request flags, '
+                     'all class/method codes; non-trivial = binding request identified by the published signatures, or a message of another class/method'),
+    'C16': dict(gen=gen_appcases(['rpc', 'rpc', 'rpc', 'raw']), judge='C16', proj=lambda r: r,
+                rule='ONC-RPC calls (xid, program 99840..100095, versions, procedures 0..255, credential/verifier lengths) over UDP and record-marked TCP, '
+                     'IPv4 and IPv6; non-trivial = call identified by the published signatures'),
+    'C17': dict(gen=gen_appcases(['smb1', 'smb2', 'raw']), judge='C17', proj=lambda r: r,
+                rule='SMB1/SMB2 negotiate and session-setup requests (ids, flags, dialect lists with order/duplicates/unknown, blob lengths, commands, '
+                     'reply flag, truncation); non-trivial = well-formed request (response checked) or response-flag/other-command message (silence checked)'),
+    'C18': dict(gen=gen_appcases(['ssh', 'ssh', 'ghost', 'raw']), judge='C18', proj=lambda r: r,
+                rule='SSH identification strings (versions, software/comment with arbitrary bytes incl. lone CR, terminators) and Gh0st magic + tails; '
+                     'non-trivial = payload starting with SSH- or the Gh0st magic'),
     'C20': dict(gen=gen_c20, judge='C20', judge_mode='log', proj=lambda r: None,
                 rule='structured and hostile frames with the real ConsoleLogger / LogfmtLogger attached; the stdout of the logger is parsed line by line; '
                      'non-trivial = frame that produced at least one event'),
@@ -482,6 +587,19 @@ def judge_lines(c, mode='frame'):
             else:
                 lines.append('F %s %s %d' % (hx(o[1]), r, b['t'] if b['t'] is not None else 0))
             idx.append(i)
+        elif o[0] == 'A':
+            parts = (b['r'] or '-').split()
+            if parts[0].startswith('PANIC'):
+                lines.append('A %s %s %s %d %d %s %s PANIC 0' % (o[1], ip_model(o[2]), ip_model(o[3]), o[4], o[5], '-' if o[6] is None else o[6], hx(o[7])))
+            else:
+                lines.append('A %s %s %s %d %d %s %s %s %s' % (o[1], ip_model(o[2]), ip_model(o[3]), o[4], o[5], '-' if o[6] is None else o[6],
+                                                             hx(o[7]), parts[0], parts[1] if len(parts) > 1 else '0'))
+            idx.append(i)
+        elif o[0] == 'S' and mode == 'frame':
+            parts = (b['r'] or 'none 0 0').split()
+            if parts[0] != 'PANIC':
+                lines.append('M %d %s %s' % (o[3], hx(o[4]), parts[0]))
+                idx.append(i)
     return lines, idx
 
 
@@ -521,7 +639,7 @@ def explore(prop, pd, tier, seed, replay=None):
         vmap[(ci, i)] = v
     for ci, c in enumerate(cases):
         for i, o in enumerate(c['ops']):
-            if o[0] != 'F':
+            if o[0] not in ('F', 'A', 'S'):
                 continue
             if i >= len(c['impl']):
                 violations.append({'clause': 'implementation process died', 'ops': [op_to_json(x) for x in c['ops'][:i + 1]], 'tags': c['tags']})
@@ -533,7 +651,7 @@ def explore(prop, pd, tier, seed, replay=None):
                 violations.append({'clause': 'implementation panicked: ' + a['r'], 'ops': [op_to_json(x) for x in c['ops'][:i + 1]], 'tags': c['tags'], 'panic': True})
                 continue
             v = vmap.get((ci, i))
-            if not pd.get('judge') and o[1][:6] in auth_macs(c['ops'][0][1]) and len(o[1]) >= 14:
+            if o[0] == 'F' and not pd.get('judge') and o[1][:6] in auth_macs(c['ops'][0][1]) and len(o[1]) >= 14:
                 nontrivial.add((o[1], c['ops'][0][1]['logger'], c['ops'][0][1]['level']))
                 if len(samples) < 3:
                     samples.append({'config': op_to_json(c['ops'][0])[1], 'frame': o[1].hex(), 'outcome': a['r'][:200]})
@@ -544,11 +662,13 @@ def explore(prop, pd, tier, seed, replay=None):
                             'tags': c['tags'], 'reply': a['r'], 'frame_index': i}
                     if 'cookie collision' in viol['clause']:
                         viol['cookie_collision'] = True
+                    if viol['clause'].startswith('[shadowed]'):
+                        viol['shadowed'] = True
                     violations.append(viol)
                 elif parts[1] == 'ok' and parts[2] == '1':
-                    nontrivial.add(o[1])
+                    nontrivial.add(tuple(x for x in o if not isinstance(x, dict)))
                     if len(samples) < 3:
-                        samples.append({'config': op_to_json(c['ops'][0])[1], 'frame': o[1].hex(), 'reply': a['r'][:400], 'table': a['t']})
+                        samples.append({'config': op_to_json(c['ops'][0])[1], 'op': op_to_json(o), 'result': a['r'][:400], 'table': a['t']})
             # correspondence
             if i < len(c['model']):
                 b = c['model'][i]
@@ -564,10 +684,17 @@ def explore(prop, pd, tier, seed, replay=None):
                     disagreements.append({'ops': [op_to_json(x) for x in c['ops'][:i + 1]], 'impl_log': c['impl'][i]['log'][:12],
                                           'model_log': b['log'][:12]})
                 else:
-                    ra = bytes.fromhex(a['r']) if outcome(a['r']) == 'reply' else None
-                    rb = bytes.fromhex(b['r']) if outcome(b['r']) == 'reply' else None
-                    pa = (outcome(a['r']), pd['proj'](ra) if ra is not None else None, a['t'] if pd.get('table') else None)
-                    pb = (outcome(b['r']), pd['proj'](rb) if rb is not None else None, b['t'] if pd.get('table') else None)
+                    def _hexof(x):
+                        try:
+                            return bytes.fromhex(x['r'].split()[0]) if outcome(x['r']) == 'reply' else None
+                        except ValueError:
+                            return x['r'].encode()
+                    ra, rb = _hexof(a), _hexof(b)
+                    if o[0] != 'F':
+                        ra, rb = (a['r'],), (b['r'],)
+                    pj = pd['proj'] if o[0] == 'F' else (lambda x: x)
+                    pa = (outcome(a['r']), pj(ra) if ra is not None else None, a['t'] if pd.get('table') else None)
+                    pb = (outcome(b['r']), pj(rb) if rb is not None else None, b['t'] if pd.get('table') else None)
                     if pa != pb:
                         disagreements.append({'ops': [op_to_json(x) for x in c['ops'][:i + 1]], 'impl': a['r'][:600], 'model': b['r'][:600],
                                               'impl_table': a['t'], 'model_table': b['t']})
@@ -586,3 +713,434 @@ def explore(prop, pd, tier, seed, replay=None):
         'input_distribution': {'tags': tagdist, 'outcomes': outdist, 'cases': len(cases)},
     }
     return {'coverage': cov, 'violations': violations, 'disagreements': disagreements}
+
+
+# ============================================================================= custom explorations (differential oracles)
+
+def _result(evaluations, nontrivial, samples, compared, byte_exact, disagreements, violations, rule, dist):
+    return {'coverage': {'evaluations': evaluations, 'distinct_nontrivial': nontrivial, 'rule': rule,
+                         'samples': samples or [{'note': 'no non-trivial case reached'}],
+                         'traces_validated_against_impl': compared, 'byte_exact_agreement': byte_exact,
+                         'projection_disagreements': len(disagreements), 'input_distribution': dist},
+            'violations': violations, 'disagreements': disagreements}
+
+
+def _corr(cases, proj, disagreements):
+    """model/implementation correspondence over all F/A ops of the cases; returns (compared, byte_exact)"""
+    compared = exact = 0
+    for c in cases:
+        for i, o in enumerate(c['ops']):
+            if o[0] not in ('F', 'A') or i >= len(c['impl']) or i >= len(c.get('model', [])):
+                continue
+            a, b = c['impl'][i], c['model'][i]
+            compared += 1
+            if a['r'] == b['r'] and a['t'] == b['t']:
+                exact += 1
+            else:
+                pa, pb = proj(o, a), proj(o, b)
+                if pa != pb:
+                    disagreements.append({'ops': [op_to_json(x) for x in c['ops'][:i + 1]], 'impl': a['r'][:400], 'model': b['r'][:400]})
+    return compared, exact
+
+
+def seg_kind(block):
+    """per-segment observation of a TCP reply frame: (kind, masked app payload)"""
+    r = block['r']
+    if outcome(r) != 'reply':
+        return (outcome(r), None)
+    d = split_reply(bytes.fromhex(r))
+    if 'tcp' not in d:
+        return ('other', None)
+    fl = d['tcp'][4]
+    app = d.get('app') or b''
+    return ('ack' if (fl == 0x10 and not app) else 'data' if fl == 0x18 else 'flags%x' % fl, mask_env(app))
+
+
+def gen_streams(rng, tier):
+    streams = []
+    n = 8 if tier == 'quick' else 40
+    for _ in range(n):
+        streams.append(('http', gen.gen_http(rng, rng.choice([None, None, None, 'nocolon', 'version', 'unterminated']))))
+        streams.append(('rpc', gen.gen_rpc(rng, True, None)))
+    streams.append(('http', b'GET / HTTP/1.1\r\n\r\n'))
+    streams.append(('http', b'OPTIONS /x HTTP/1.0\nHost: a\n\n'))
+    streams.append(('rpc', bytes.fromhex('80000028') + bytes.fromhex('112233440000000000000002000186a0000000020000000300000000000000000000000000000000')))
+    return [(k, s[:70]) for k, s in streams if len(s) >= 2]
+
+
+def explore_c11(prop, pd, tier, rng, corpus_cases):
+    w = World(rng, selfmode=False, denymode=False, key=(0, 0))
+    streams = gen_streams(rng, tier)
+    cases = []
+    sport = [2000]
+
+    def flow_case(s, cuts, tag):
+        sport[0] = (sport[0] + 1) % 60000 + 2000
+        frames = []
+        seq = 5
+        pos = 0
+        for cpos in list(cuts) + [len(s)]:
+            part = s[pos:cpos]
+            if part:
+                frames.append(w.data_frame(False, sport[0], 80, seq, part))
+                seq = (seq + len(part)) & 0xffffffff
+            pos = cpos
+        c = case(w, frames, [tag])
+        c['stream'], c['cuts'] = s, tuple(cuts)
+        return c
+    groups = []
+    for kind, s in streams:
+        g = {'stream': s, 'kind': kind, 'whole': flow_case(s, (), 'whole'), 'prefixes': [], 'segs': []}
+        # trigger byte: shortest prefix answered when sent as one segment
+        for n in range(1, len(s) + 1):
+            g['prefixes'].append(flow_case(s[:n], (), 'prefix'))
+        cutsets = [(a,) for a in range(1, len(s))]
+        two = [(a, b) for a in range(1, len(s)) for b in range(a + 1, len(s))]
+        if tier == 'quick':
+            two = [two[rng.below(len(two))] for _ in range(min(len(two), 60))] if two else []
+        cutsets += two
+        for _ in range(10 if tier == 'quick' else 60):
+            k = 3 + rng.below(5)
+            cs = sorted(set(1 + rng.below(len(s) - 1) for _ in range(k))) if len(s) > 2 else []
+            if cs:
+                cutsets.append(tuple(cs))
+        for cs in cutsets:
+            g['segs'].append(flow_case(s, cs, 'cuts%d' % len(cs)))
+        groups.append(g)
+        cases += [g['whole']] + g['prefixes'] + g['segs']
+    # signature length of each stream from the real matcher
+    sigops = [('C', w.cfg())] + [('S', 'proto', 0, 0, g['stream']) for g in groups]
+    sb, _, _, _ = run_impl(sigops)
+    for g, b in zip(groups, sb[1:]):
+        parts = b['r'].split()
+        g['siglen'] = int(parts[2]) if parts[0] != 'none' else None
+    run_cases(cases)
+    violations, disagreements, samples = [], [], []
+    evaluations = nontrivial = 0
+    for g in groups:
+        s = g['stream']
+        whole = seg_kind(g['whole']['impl'][-1])
+        trigger = None
+        for n, pc in enumerate(g['prefixes'], 1):
+            if seg_kind(pc['impl'][-1])[0] == 'data':
+                trigger = n
+                break
+        for c in g['segs']:
+            evaluations += 1
+            obs = [seg_kind(b) for b in c['impl'][2:]]
+            bounds = list(c['cuts']) + [len(s)]
+            ok, why = True, ''
+            start = 0
+            for (kind, app), end in zip(obs, bounds):
+                if trigger is None or end < trigger:
+                    if kind != 'ack':
+                        ok, why = False, 'segment before completion answered with %s' % kind
+                        break
+                elif start < trigger <= end:
+                    if kind != 'data' or app != whole[1]:
+                        ok, why = False, 'completing segment: %s instead of the reply of the unsegmented stream' % kind
+                    break
+                start = end
+            if trigger is not None:
+                nontrivial += 1
+            if not ok:
+                v = {'clause': why, 'ops': [op_to_json(x) for x in c['ops']], 'tags': c['tags'], 'cuts': list(c['cuts']), 'stream': s.hex(),
+                     'trigger': trigger}
+                if g['siglen'] is not None and c['cuts'] and c['cuts'][0] < g['siglen']:
+                    v['cut_inside_signature'] = True
+                violations.append(v)
+            elif len(samples) < 3 and trigger is not None:
+                samples.append({'stream': s.hex(), 'cuts': list(c['cuts']), 'trigger_byte': trigger, 'per_segment': [k for k, _ in obs]})
+    compared, exact = _corr(cases, lambda o, b: seg_kind(b), disagreements)
+    dist = {'streams': len(groups), 'compositions': evaluations, 'kinds': {k: sum(1 for g in groups if g['kind'] == k) for k in ('http', 'rpc')}}
+    return _result(evaluations, nontrivial, samples, compared, exact, disagreements, violations, pd['rule'], dist)
+
+
+def canon_app(reply_hex, portdelta):
+    """application reply with env and endpoint-bearing fields blanked (C19)"""
+    if reply_hex == '-':
+        return ('silent', portdelta)
+    r = bytes.fromhex(reply_hex)
+    if len(r) >= 20 and r[0] == 1 and r[1] == 1:
+        return ('stun', r[4:20], portdelta)                       # MAPPED-ADDRESS (and the length it implies) masked
+    if r[:4] == b'HTTP' or r[:4] == b'SSH-' or r[:5] == b'Gh0st' or r[4:8] in (b'\xffSMB', b'\xfeSMB'):
+        return ('bytes', mask_env(r), portdelta)
+    body = r
+    if len(r) >= 28 and r[0] & 0x80 and struct.unpack('>I', r[:4])[0] - 0x80000000 == len(r) - 4 and r[8:12] == b'\0\0\0\1':
+        body = r[4:]
+    if len(body) >= 24 and body[4:8] == b'\0\0\0\1' and body[8:20] == bytes(12):
+        stat = body[20:24]
+        rest = body[24:]
+        # portmapper results carry the contacted endpoint: keep only their presence
+        return ('rpc', body[:4], stat, rest if stat != bytes(4) else (b'results' if rest else b''), portdelta)
+    if len(r) >= 12 and r[2] & 0x80:
+        # DNS: keep header and questions, blank RDLENGTH/RDATA of the answers
+        qd = struct.unpack('>H', r[4:6])[0]
+        return ('dns', r[:12], qd, portdelta)
+    return ('bytes', mask_env(r), portdelta)
+
+
+def explore_c19(prop, pd, tier, rng, corpus_cases):
+    w = World(rng, selfmode=False, denymode=False)
+    n = 400 if tier == 'quick' else 6000
+    ops = [('C', w.cfg()), ('X',)]
+    groups = []
+    for _ in range(n):
+        tcp = rng.chance(1, 2)
+        kind, fault, pl = gen.gen_app(rng, tcp=tcp)
+        variants = []
+        for v6 in (False, True):
+            for (sp, dp) in [(rng.u16(), rng.u16()), (rng.choice([0, 65535, 1]), rng.choice([0, 65535, 80])), (rng.u16(), rng.choice([65535, 53, 3478, 111]))]:
+                ops.append(app_op(rng, w, pl, tcp=tcp, v6=v6, sport=sp, dport=dp))
+                variants.append(len(ops) - 1)
+        groups.append((kind, fault, tcp, pl, variants))
+    c = {'ops': ops, 'tags': ['ports-versions']}
+    run_cases([c])
+    violations, disagreements, samples = [], [], []
+    nontrivial = 0
+    dist = {}
+    for kind, fault, tcp, pl, variants in groups:
+        outs = []
+        for i in variants:
+            parts = c['impl'][i]['r'].split()
+            if parts[0] == 'PANIC':
+                outs.append(('panic',))
+                continue
+            dport = c['ops'][i][5]
+            outs.append(canon_app(parts[0], (int(parts[1]) - dport) % 65536))
+        dist[kind] = dist.get(kind, 0) + 1
+        if any(o[0] != 'silent' for o in outs):
+            nontrivial += 1
+        if len(set(outs)) != 1:
+            bad = next(i for i, o in enumerate(outs) if o != outs[0])
+            violations.append({'clause': 'answer depends on ports / IP version: variant %d differs from variant 0' % bad,
+                               'ops': [op_to_json(ops[0]), ['X'], op_to_json(ops[variants[0]]), op_to_json(ops[variants[bad]])],
+                               'tags': [kind, str(fault)], 'outs': [str(outs[0])[:200], str(outs[bad])[:200]]})
+        elif len(samples) < 3 and outs[0][0] != 'silent':
+            samples.append({'payload': pl.hex()[:200], 'transport': 'tcp' if tcp else 'udp', 'variants': len(variants), 'canonical_reply': str(outs[0])[:200]})
+    compared, exact = _corr([c], lambda o, b: b['r'], disagreements)
+    return _result(len(groups) * 6, nontrivial, samples, compared, exact, disagreements, violations, pd['rule'], {'kinds': dist})
+
+
+def explore_c08(prop, pd, tier, rng, corpus_cases):
+    """reply(f | h) = reply(f | h restricted to accepted data segments of f's own flow)"""
+    base = gen_flows(rng, tier, nflows=4, steps=40)
+    run_cases(base, want_model=False)
+    cases, groups = [], []
+    for bc in base[: (12 if tier == 'quick' else 200)]:
+        cfgop = bc['ops'][0]
+        frames = [o[1] for o in bc['ops'][2:]]
+        repl = [b['r'] for b in bc['impl'][2:]]
+        # probe = each of the last 6 frames that is a TCP segment
+        for pi in range(max(0, len(frames) - 6), len(frames)):
+            f = frames[pi]
+            key = flow_key(f)
+            if key is None:
+                continue
+            hist = frames[:pi]
+            own = [h for h, r in zip(hist, repl[:pi]) if flow_key(h) == key and is_data(h) and outcome(r) == 'reply']
+            others = [h for h in hist if flow_key(h) != key]
+            variants = [hist, own, own + others[:10], others[:5] + own, own + [gen.gen_frame(rng, World(rng))[1] for _ in range(5)]]
+            ids = []
+            for vh in variants:
+                c = {'ops': [cfgop, ('X',)] + [('F', x) for x in vh] + [('F', f)], 'tags': ['noninterference']}
+                cases.append(c)
+                ids.append(len(cases) - 1)
+            groups.append((ids, f, cfgop))
+    run_cases(cases)
+    violations, disagreements, samples = [], [], []
+    nontrivial = 0
+    for ids, f, cfgop in groups:
+        outs = []
+        for i in ids:
+            b = cases[i]['impl'][-1]
+            outs.append(proj_probe(b['r']))
+        if outs[0][0] == 'reply':
+            nontrivial += 1
+        if len(set(outs)) != 1:
+            bad = next(i for i, o in enumerate(outs) if o != outs[0])
+            v = {'clause': 'reply to the probe frame differs between the full history and variant %d' % bad,
+                 'ops': [op_to_json(x) for x in cases[ids[bad]]['ops']], 'full_history_ops': [op_to_json(x) for x in cases[ids[0]]['ops']],
+                 'tags': ['noninterference']}
+            if collision_in([o[1] for o in cases[ids[0]]['ops'][2:]], cfgop[1]['key']):
+                v['cookie_collision'] = True
+            violations.append(v)
+        elif len(samples) < 3 and outs[0][0] == 'reply':
+            samples.append({'probe': f.hex()[:200], 'history_lengths': [len(cases[i]['ops']) - 3 for i in ids], 'reply': str(outs[0])[:160]})
+    compared, exact = _corr(cases, lambda o, b: proj_probe(b['r']), disagreements)
+    return _result(len(groups) * 5, nontrivial, samples, compared, exact, disagreements, violations, pd['rule'],
+                   {'probes': len(groups), 'histories': len(cases)})
+
+
+def proj_probe(r):
+    if outcome(r) != 'reply':
+        return (outcome(r),)
+    d = split_reply(bytes.fromhex(r))
+    return ('reply', d.get('l2'), d.get('ip'), d.get('tcp'), d.get('udp'), mask_env(d.get('app')) if d.get('app') is not None else d.get('l4') or d.get('arp'))
+
+
+def flow_key(f):
+    """(version, src, dst, sport, dport) of a TCP frame, else None"""
+    if len(f) < 14:
+        return None
+    ety = struct.unpack('>H', f[12:14])[0]
+    p = f[14:]
+    if ety == 0x0800 and len(p) >= 20 and p[9] == 6:
+        ihl = max((p[0] & 15) * 4, 20)
+        t = p[ihl:]
+        if len(t) >= 20:
+            return (4, p[12:16], p[16:20], t[0:2], t[2:4])
+    if ety == 0x86dd and len(p) >= 60 and p[6] == 6:
+        t = p[40:]
+        return (6, p[8:24], p[24:40], t[0:2], t[2:4])
+    return None
+
+
+def is_data(f):
+    k = flow_key(f)
+    if k is None:
+        return False
+    p = f[14:]
+    t = p[max((p[0] & 15) * 4, 20):] if k[0] == 4 else p[40:]
+    return (t[13] & 0x18) == 0x18
+
+
+def collision_in(frames, key):
+    seen = {}
+    for f in frames:
+        k = flow_key(f)
+        if k is None:
+            continue
+        ck = cookie(key, k[1], k[2], struct.unpack('>H', k[3])[0], struct.unpack('>H', k[4])[0])
+        if ck in seen and seen[ck] != k:
+            return True
+        seen[ck] = k
+    return False
+
+
+def reflect_class(r):
+    """coarse protocol class of an application payload (for C12)"""
+    if r[:5] == b'HTTP/':
+        return 'http'
+    if r[:4] == b'SSH-':
+        return 'ssh'
+    if r[:5] == b'Gh0st':
+        return 'ghost'
+    if len(r) >= 8 and r[4:8] in (b'\xffSMB', b'\xfeSMB'):
+        return 'smb'
+    if len(r) >= 20 and r[0] < 2 and (r[1] & 0xef) == 1 and struct.unpack('>H', r[2:4])[0] == len(r) - 20:
+        return 'stun'
+    if len(r) >= 24 and (r[4:8] == b'\0\0\0\1' or (len(r) >= 28 and r[8:12] == b'\0\0\0\1' and r[0] & 0x80)):
+        return 'rpc'
+    if len(r) >= 12 and r[2] & 0x80:
+        return 'dns'
+    return 'other'
+
+
+def explore_c12(prop, pd, tier, rng, corpus_cases):
+    w = World(rng, selfmode=rng.chance(1, 2), denymode=False)
+    s4, d4 = w.addrs(False)
+    s6, d6 = w.addrs(True)
+    n = 60 if tier == 'quick' else 1500
+    # --- layer 2-4 reply-typed messages: must get no reply at all
+    frames = []
+    for _ in range(n):
+        frames.append(('arp-reply', eth(rng.choice([w.mac, BCAST]), w.cl_mac, 0x0806, arp(2, w.cl_mac, w.cl4, w.mac, w.my4, pad=rng.bytes(rng.below(10))))))
+        frames.append(('icmp-echo-reply', w.f4(1, icmp(0, 0, rng.bytes(4 + rng.below(40))))))
+        frames.append(('icmp6-echo-reply', w.f6(58, icmp6(129, 0, rng.bytes(4 + rng.below(40)), s6, d6))))
+        frames.append(('icmp6-na', w.f6(58, icmp6(136, 0, bytes([0x60, 0, 0, 0]) + rng.choice([w.my6, w.cl6]) + bytes([2, 1]) + w.cl_mac, s6, d6))))
+        v6 = rng.chance(1, 2)
+        frames.append(('tcp-synack', w.tcp_frame(v6, rng.u16(), rng.u16(), rng.u32(), rng.u32(), 0x12, rng.choice([b'', b'x']))))
+        frames.append(('tcp-rst', w.tcp_frame(v6, rng.u16(), rng.u16(), rng.u32(), rng.u32(), rng.choice([0x04, 0x14]))))
+    l2case = case(w, [f for _, f in frames], ['reply-typed-l2l4'])
+    # --- application reply-typed messages: own replies re-addressed, and generated ones; chains
+    seeds = []
+    for _ in range(n * 4):
+        tcp = rng.chance(1, 3)
+        kind, fault, pl = gen.gen_app(rng, tcp=tcp)
+        seeds.append((tcp, pl))
+    gen_replies = []
+    for _ in range(n):
+        q = gen.gen_dns(rng, 'qr')
+        gen_replies.append(('dns', False, q))
+        ty = rng.choice([b'\x00\x11', b'\x01\x01', b'\x01\x11'])
+        attrs = rng.choice([b'', gen.stun_attr(1, b'\x00\x01' + rng.bytes(6)), gen.stun_attr(0x8022, rng.bytes(4))])
+        gen_replies.append(('stun', False, ty + struct.pack('>H', len(attrs)) + rng.choice([bytes(16), b'\x21\x12\xa4\x42' + rng.bytes(12), rng.bytes(16)]) + attrs))
+        gen_replies.append(('smb', True, gen.gen_smb1(rng, 'replyflag')))
+        gen_replies.append(('smb', True, gen.gen_smb2(rng, 'replyflag')))
+        gen_replies.append(('rpc', rng.chance(1, 2), None))
+    fixed = []
+    for kind, tcp, pl in gen_replies:
+        if kind == 'rpc':
+            pl = gen.gen_rpc(rng, tcp, 'reply', shadow_ok=False)
+        fixed.append((kind, tcp, pl))
+    # round 0: seeds (requests) -> the implementation's own replies
+    ops0 = [('C', w.cfg()), ('X',)] + [app_op(rng, w, pl, tcp=tcp, v6=False, sport=4000, dport=5000) for tcp, pl in seeds]
+    c0 = {'ops': ops0, 'tags': ['seed-requests']}
+    run_cases([c0], want_model=False)
+    own = []
+    for (tcp, pl), b in zip(seeds, c0['impl'][2:]):
+        parts = b['r'].split()
+        if parts and parts[0] not in ('-', 'PANIC'):
+            r = bytes.fromhex(parts[0])
+            # C12 lists DNS / STUN / SMB / ONC-RPC replies (SSH banners and Gh0st frames are not protocol-marked replies)
+            if reflect_class(r) in ('dns', 'stun', 'smb', 'rpc'):
+                own.append((reflect_class(r), tcp, r))
+    msgs = fixed + own
+    violations, disagreements, samples = [], [], []
+    chain_cases = []
+    cur = [(k, tcp, pl, [], k) for k, tcp, pl in msgs]
+    for depth in range(4):
+        ops = [('C', w.cfg()), ('X',)] + [app_op(rng, w, pl, tcp=tcp, v6=False, sport=4000, dport=5000) for _, tcp, pl, _, _ in cur]
+        cc = {'ops': ops, 'tags': ['reflect%d' % depth]}
+        run_cases([cc])
+        chain_cases.append(cc)
+        nxt = []
+        for (k, tcp, pl, chain, k0), b in zip(cur, cc['impl'][2:]):
+            parts = b['r'].split()
+            if parts and parts[0] not in ('-', 'PANIC'):
+                r = bytes.fromhex(parts[0])
+                rc = reflect_class(r)
+                ch = chain + [(k, pl, rc)]
+                if depth == 0 and rc == k and k in ('dns', 'stun', 'smb', 'rpc'):
+                    violations.append({'clause': '%s message marked as a reply was answered by the %s responder' % (k, k),
+                                       'ops': [op_to_json(ops[0]), ['X'], op_to_json(app_op(rng, w, pl, tcp=tcp, v6=False, sport=4000, dport=5000))], 'tags': [k]})
+                if len(ch) > 2:
+                    violations.append({'clause': 'reflection chain of a %s reply-typed message does not die out after two replies' % k0,
+                                       'ops': [op_to_json(ops[0]), ['X']] + [op_to_json(app_op(rng, w, x[1], tcp=tcp, v6=False, sport=4000, dport=5000)) for x in ch],
+                                       'tags': [k0], 'chain': [x[2] for x in ch]})
+                else:
+                    nxt.append((rc, tcp, r, ch, k0))
+        if depth == 0 and len(samples) < 3:
+            for (k, tcp, pl, chain, k0), b in list(zip(cur, cc['impl'][2:]))[:3]:
+                samples.append({'class': k, 'transport': 'tcp' if tcp else 'udp', 'message': pl.hex()[:120], 'answer': b['r'][:80]})
+        cur = nxt
+        if not cur:
+            break
+    run_cases([l2case])
+    for (name, f), b in zip(frames, l2case['impl'][2:]):
+        if outcome(b['r']) == 'reply':
+            violations.append({'clause': '%s elicited a reply' % name, 'ops': [op_to_json(l2case['ops'][0]), ['X'], op_to_json(('F', f))], 'tags': [name]})
+    compared, exact = _corr(chain_cases + [l2case], lambda o, b: b['r'], disagreements)
+    dist = {'l2l4_frames': len(frames), 'generated_app_replies': len(fixed), 'own_replies_reflected': len(own)}
+    return _result(len(frames) + len(msgs), len(frames) + len(msgs), samples, compared, exact, disagreements, violations, pd['rule'], dist)
+
+
+PROPS.update({
+    'C08': dict(custom=explore_c08, gen=lambda rng, tier: [], proj=None,
+                rule='for probe segments of scripted multi-flow histories: the reply under the full history is compared with the reply under the history '
+                     'restricted to the accepted data segments of the probe\'s own flow, and with other-flow traffic / ARP / ICMP / UDP noise appended, '
+                     'prepended or inserted (wall-clock fields masked); non-trivial = probe that is answered'),
+    'C11': dict(custom=explore_c11, gen=lambda rng, tier: [], proj=None,
+                rule='request streams (HTTP grammar + faults, ONC-RPC/TCP calls), every 1-cut composition, 2-cut compositions (sampled in quick, exhaustive in '
+                     'thorough) and random k-cut compositions, each on a fresh flow through real PSH|ACK segments; oracle: only bare ACKs before the trigger '
+                     'byte (shortest answered prefix), the segment containing it carries the reply of the unsegmented stream; non-trivial = stream that is answered'),
+    'C12': dict(custom=explore_c12, gen=lambda rng, tier: [], proj=None,
+                rule='reply-typed messages of every protocol (ARP reply, ICMP/ICMPv6 echo reply, NA, TCP SYN|ACK and RST, DNS QR=1, STUN indication/success/'
+                     'error, SMB with reply flag, ONC-RPC reply) both generated and taken from the implementation\'s own answers re-addressed to it; '
+                     'judge: not answered by the same protocol\'s responder, and the reflection chain contains at most two replies'),
+    'C19': dict(custom=explore_c19, gen=lambda rng, tier: [], proj=None,
+                rule='every generated application payload is sent over 6 variants (IPv4/IPv6 x three port pairs incl. 0 and 65535) of the same transport; '
+                     'canonical replies (wall clock, STUN MAPPED-ADDRESS, portmapper results, DNS RDATA masked; local-port delta kept) must be identical; '
+                     'non-trivial = payload answered in some variant'),
+})
